@@ -12,7 +12,7 @@ namespace Remoc.Rfn
 variable {f : Fun}
 
 /-- case analysis of a step: one goal per successful branch, with the successor state substituted -/
-macro "step_inv" h:ident : tactic => `(tactic| (
+macro "rfn_step_inv" h:ident : tactic => `(tactic| (
   simp only [step] at $h:ident
   (repeat' split at $h:ident)
   all_goals first
@@ -33,7 +33,7 @@ theorem wf_init : WF (init f) := by
 
 theorem wf_step (cfg : Cfg) (s s' : State f) (l : Label) (hw : WF s) (h : step cfg s l = some s') : WF s' := by
   obtain ⟨h1, h2, h3, h4, h5, h6⟩ := hw
-  cases l <;> step_inv h
+  cases l <;> rfn_step_inv h
   all_goals (constructor <;> simp_all [upd_apply, endExec] <;> grind)
 
 
@@ -54,7 +54,7 @@ theorem st_step (cfg : Cfg) (s s' : State f) (l : Label) (hw : WF s) (hs : ST cf
     (h : step cfg s l = some s') : ST cfg s' := by
   obtain ⟨w1, w2, w3, w4, w5, w6⟩ := hw
   obtain ⟨h1, h2, h3, h4, h5, h7, h6⟩ := hs
-  cases l <;> step_inv h
+  cases l <;> rfn_step_inv h
   all_goals (constructor <;> simp_all [upd_apply, endExec] <;> grind)
 
 
